@@ -457,22 +457,42 @@ impl Check for InitCheck {
         }
         let r = (|| -> Result<(), Failure> {
             let problem = RealP::new(1, 0.0, 1.0, RealKind::Tag);
-            let mut st = state_with::<RealP>(vec![(0..n1).map(|k| ind(k, k as f64)).collect()], 1);
+            // nest bit 1: another population (of another size) lies below the one the reaction works on
+            let mut pops: Vec<Vec<Individual<RealP>>> = Vec::new();
+            if c.nest & 2 != 0 {
+                pops.push((0..n1 + 2).map(|k| ind(900 + k, 5.0)).collect());
+            }
+            pops.push((0..n1).map(|k| ind(k, k as f64)).collect());
+            let mut st = state_with::<RealP>(pops, 1);
             let comp: Box<dyn Component<RealP>> = ChemicalReactionInit::new::<RealP>(2.5, 7.0);
-            let init: Box<dyn Component<RealP>> = ChemicalReactionInit::new::<RealP>(2.5, 7.0);
-            init.init(&problem, &mut st).map_err(|e| Failure::new("C20 ChemicalReactionInit init fails", format!("{e:#}")))?;
-            for (stage, n) in [(1, n1), (2, n2)] {
-                if stage == 2 {
-                    *st.populations_mut().current_mut() = (0..n).map(|k| ind(50 + k, 100.0 + k as f64)).collect();
-                }
-                let r = catch(|| comp.execute(&problem, &mut st));
-                ensure_that!(matches!(r, Ok(Ok(()))), "C20 ChemicalReactionInit fails", "{c:?}: stage {stage}: {r:?}");
+            comp.init(&problem, &mut st).map_err(|e| Failure::new("C20 ChemicalReactionInit init fails", format!("{e:#}")))?;
+            let check = |st: &State<RealP>, stage: &str, n: usize| -> Result<(), Failure> {
                 let mols = st.borrow::<ChemicalReaction<RealP>>();
                 let ps = st.populations();
-                ensure_that!(mols.len() == n && ps.current().len() == n, "C20 molecule list not aligned with the population", "{c:?}: after initialising the reaction the {stage}. time there are {} molecule records for {} individuals", mols.len(), ps.current().len());
+                ensure_that!(mols.len() == n && ps.current().len() == n, "C20 molecule list not aligned with the population", "{c:?}: {stage}: {} molecule records for {} individuals of the current population (expected {n})", mols.len(), ps.current().len());
                 for (k, (m, i)) in mols.iter().zip(ps.current().iter()).enumerate() {
-                    ensure_that!(m.best == *i && m.kinetic_energy == 2.5 && m.num_hit == 0, "C20 molecule list not aligned with the population", "{c:?}: stage {stage}: molecule {k} does not describe individual {k} (best {:?}, kinetic energy {}, hits {})", m.best.solution(), m.kinetic_energy, m.num_hit);
+                    ensure_that!(m.best == *i && m.kinetic_energy == 2.5 && m.num_hit == 0, "C20 molecule list not aligned with the population", "{c:?}: {stage}: molecule {k} does not describe individual {k} of the current population (best {:?}, kinetic energy {}, hits {})", m.best.solution(), m.kinetic_energy, m.num_hit);
                 }
+                Ok(())
+            };
+            let r = catch(|| comp.execute(&problem, &mut st));
+            ensure_that!(matches!(r, Ok(Ok(()))), "C20 ChemicalReactionInit fails", "{c:?}: first stage: {r:?}");
+            check(&st, "after the first initialisation", n1)?;
+            if c.nest & 1 == 0 {
+                // second stage in the same scope on a replaced population
+                *st.populations_mut().current_mut() = (0..n2).map(|k| ind(50 + k, 100.0 + k as f64)).collect();
+                let r = catch(|| comp.execute(&problem, &mut st));
+                ensure_that!(matches!(r, Ok(Ok(()))), "C20 ChemicalReactionInit fails", "{c:?}: second stage: {r:?}");
+                check(&st, "after the second initialisation", n2)?;
+            } else {
+                // a nested reaction (e.g. a small inner CRO used as an operator) is set up inside a scope on a population
+                // of its own: it has its own molecule list, the outer one is untouched when the scope has ended
+                st.populations_mut().push((0..n2).map(|k| ind(50 + k, 100.0 + k as f64)).collect());
+                let inner = mahf::components::Scope::new(vec![ChemicalReactionInit::new::<RealP>(1.0, 3.0)]);
+                let r = catch(|| inner.execute(&problem, &mut st));
+                ensure_that!(matches!(r, Ok(Ok(()))), "C20 ChemicalReactionInit fails", "{c:?}: nested stage: {r:?}");
+                st.populations_mut().pop();
+                check(&st, "after a nested reaction was initialised and its scope ended", n1)?;
             }
             Ok(())
         })();
@@ -492,7 +512,7 @@ pub fn run_all(ctx: &mut Ctx, replay: Option<&Path>) {
     ctx.regressions(&r);
     let i = InitCheck;
     ctx.regressions(&i);
-    ctx.exhaustive(&i, "reaction initialisation executed twice in one state: first population 0-8 x second population 0-8 individuals", (0u8..9).flat_map(|a| (0u8..9).map(move |b| InitCase { first: a, second: b, nest: 0 })));
+    ctx.exhaustive(&i, "reaction initialisation executed twice in one state: first population 0-8 x second population 0-8 individuals x {second stage in the same scope, nested reaction inside a scope} x {nothing, another population} below", (0u8..9).flat_map(|a| (0u8..9).flat_map(move |b| (0u8..4).map(move |nest| InitCase { first: a, second: b, nest }))));
     ctx.random(&p, prep_strategy(), ctx.tier.pick(100_000, 500_000));
     let runs = inst_strategy(Kind::Real).prop_flat_map(|inst| (tpl_strategy(18, inst.dim()), Just(inst), 5u32..60, any::<u64>())).prop_map(|(tpl, inst, iters, seed)| RunSpec { tpl, inst, iters, seed });
     ctx.random(&r, runs, ctx.tier.pick(5000, 25_000));
